@@ -13,7 +13,7 @@ WORK=$(mktemp -d /tmp/orbmut.XXXXXX)
 trap 'rm -rf "$WORK" "${SNAP:-}"' EXIT
 fail=0; n=0; skipped=0
 run_one() {
-  local name="$1" prop="$2" expect="$3" silent="$4"
+  local name="$1" prop="$2" expect="$3" silent="$4" tier="${5:-quick}"
   local d="$WORK/$(basename $name)"
   local patchfile="/verif/mutants/$name.patch"
   case "$name" in seeded/*) patchfile="/verif/$name/patch.diff";; esac
@@ -26,18 +26,18 @@ run_one() {
     echo "SKIP $name (mutant does not compile: $(head -c 200 "$d/.builderr"))"; rm -rf "$d"; return 3
   fi
   if [ "$silent" = "true" ]; then
-    out=$("$OC" -repo "$d" -verif "$(pwd)" -prop "$prop" -no-evidence 2>&1); rc=$?
+    out=$("$OC" -repo "$d" -verif "$(pwd)" -prop "$prop" -tier "$tier" -no-evidence 2>&1); rc=$?
     rm -rf "$d"
     if [ $rc -eq 0 ]; then echo "OK   $name: $prop silent on behaviour-preserving rewrite"; return 0; fi
     echo "FAIL $name: $prop raised an alarm on a behaviour-preserving rewrite"; echo "$out" | grep -A2 VIOLATION | head -12; return 1
   fi
   if [ "$expect" = "ANY" ]; then
-    out=$("$OC" -repo "$d" -verif "$(pwd)" -prop "$prop" -no-evidence 2>&1); rc=$?
+    out=$("$OC" -repo "$d" -verif "$(pwd)" -prop "$prop" -tier "$tier" -no-evidence 2>&1); rc=$?
     rm -rf "$d"
     if [ $rc -eq 1 ]; then echo "OK   $name: $(echo "$out" | grep -A1 '^VIOLATION' | grep kind= | head -1 | cut -c1-200)"; return 0; fi
     echo "FAIL $name: $prop no longer reports the seeded change"; return 1
   fi
-  out=$("$OC" -repo "$d" -verif "$(pwd)" -prop "$prop" -expect "$expect" -no-evidence 2>&1); rc=$?
+  out=$("$OC" -repo "$d" -verif "$(pwd)" -prop "$prop" -tier "$tier" -expect "$expect" -no-evidence 2>&1); rc=$?
   rm -rf "$d"
   if [ $rc -eq 0 ]; then echo "OK   $name: $(echo "$out" | grep FIRED | head -1 | cut -c1-220)"; return 0; fi
   echo "FAIL $name: $prop/$expect stayed silent"; echo "$out" | head -5; return 1
@@ -47,14 +47,14 @@ python3 -c "
 import json,os,glob
 for m in json.load(open('mutants/index.json')):
     if '$FILTER' in m['name'] or '$FILTER' == m['property']:
-        print(m['name'], m['property'], m['expect'] or '-', 'true' if m.get('silent') else 'false')
+        print(m['name'], m['property'], m['expect'] or '-', 'true' if m.get('silent') else 'false', m.get('tier','quick'))
 for mp in sorted(glob.glob('seeded/*/meta.json')):
     m=json.load(open(mp))
     if m.get('check_result')=='DETECTED' and ('$FILTER' in m['name'] or '$FILTER' == m['property']):
-        print('seeded/'+m['name'], m['property'], 'ANY', 'false')
+        print('seeded/'+m['name'], m['property'], 'ANY', 'false', m.get('tier','quick'))
 " > "$WORK/list"
 [ -s "$WORK/list" ] || { echo "no mutant matches '$FILTER'"; exit 0; }
-res=$(cat "$WORK/list" | xargs -P 8 -L 1 bash -c 'run_one "$0" "$1" "$2" "$3"; echo "RC $?"' )
+res=$(cat "$WORK/list" | xargs -P 8 -L 1 bash -c 'run_one "$0" "$1" "$2" "$3" "$4"; echo "RC $?"' )
 echo "$res" | grep -v '^RC '
 nfail=$(echo "$res" | grep -c '^FAIL')
 nok=$(echo "$res" | grep -c '^OK')
